@@ -17,6 +17,8 @@ struct PeerCtx {
     std::optional<CMutableTransaction> pending_parent;   // parent of the last orphan this peer sent
     std::shared_ptr<CBlock> partial;                      // compact block the peer announced with a transaction the node lacks
     CTransactionRef partial_missing;
+    std::shared_ptr<CBlock> waiting_parent;               // block A whose child the peer delivered first (the child is stored, unvalidated)
+    std::shared_ptr<CBlock> side_block;                   // side-branch block the peer delivered (stored, unvalidated)
 };
 
 std::vector<unsigned char> CorruptWitnessSig(CMutableTransaction& m)
@@ -259,6 +261,53 @@ struct World {
         if (cls == "blk_dup_tip") {
             CBlock b; if (!S.cm().m_blockman.ReadBlock(b, *S.Tip())) throw std::runtime_error("cannot read tip");
             SendBlock(n, b); return;
+        }
+        // ---------------------------------------------------------------- full blocks validated later than received
+        if (cls == "blk_child_first_bad" || cls == "blk_child_first_ok") {
+            // headers A, B, then the full block B: stored (its parent's data is missing), validated only when A arrives
+            auto a = S.BuildBlock(S.OnTip());
+            NetSim::BlockSpec sp; sp.prev = a->GetHash(); sp.height = S.Tip()->nHeight + 2; sp.time = a->nTime + 1;
+            if (cls == "blk_child_first_bad") sp.cb_value = GetBlockSubsidy(sp.height, S.consensus()) + 1;
+            auto b = S.BuildBlock(sp);
+            SendHeaders(n, {Hdr(a), Hdr(b)});
+            SendBlock(n, *b);
+            if (!n.fDisconnect) {
+                CBlockIndex* bi = S.Lookup(b->GetHash());
+                LOCK(cs_main);
+                if (!bi || !(bi->nStatus & BLOCK_HAVE_DATA) || (bi->nStatus & BLOCK_FAILED_VALID) || S.cm().ActiveChain().Contains(*bi)) throw std::runtime_error("precondition: child block not stored unvalidated");
+                diag.push_back("stored:child");
+            }
+            pc.waiting_parent = a; pc.side_block.reset();
+            return;
+        }
+        if (cls == "blk_parent_arrives" || cls == "blk_parent_from_elsewhere") {
+            if (!pc.waiting_parent) { SendBlock(n, *S.BuildBlock(S.OnTip())); return; }          // no stored child: a plain valid block
+            auto a = pc.waiting_parent; pc.waiting_parent.reset();
+            if (cls == "blk_parent_arrives") SendBlock(n, *a);
+            else { S.SubmitOwn(a); S.Pump(n); }                                                   // the parent reaches the node some other way
+            return;
+        }
+        if (cls == "blk_side_first_bad" || cls == "blk_side_first_ok") {
+            // a block competing with the tip at equal work: stored, validated only if its branch gets more work
+            auto sp = S.OnBlock(S.Tip()->pprev);
+            if (cls == "blk_side_first_bad") sp.cb_value = GetBlockSubsidy(sp.height, S.consensus()) + 1;
+            auto b = S.BuildBlock(sp);
+            SendBlock(n, *b);
+            if (!n.fDisconnect) {
+                CBlockIndex* bi = S.Lookup(b->GetHash());
+                LOCK(cs_main);
+                if (!bi || !(bi->nStatus & BLOCK_HAVE_DATA) || (bi->nStatus & BLOCK_FAILED_VALID) || S.cm().ActiveChain().Contains(*bi)) throw std::runtime_error("precondition: side block not stored unvalidated");
+                diag.push_back("stored:side");
+            }
+            pc.side_block = b; pc.waiting_parent.reset();
+            return;
+        }
+        if (cls == "blk_side_extended") {
+            if (!pc.side_block) { SendBlock(n, *S.BuildBlock(S.OnTip())); return; }
+            auto s1 = pc.side_block; pc.side_block.reset();
+            NetSim::BlockSpec sp; sp.prev = s1->GetHash(); sp.height = S.Lookup(s1->GetHash())->nHeight + 1; sp.time = std::max<int64_t>(s1->nTime + 1, GetTime());
+            SendBlock(n, *S.BuildBlock(sp));
+            return;
         }
         if (cls == "blk_truncated") { auto b = NetSim::Ser(*S.BuildBlock(S.OnTip())); b.resize(90); S.DeliverRaw(n, NetMsgType::BLOCK, b); return; }
         // ---------------------------------------------------------------- compact blocks
